@@ -285,28 +285,52 @@ def _lower_setdefault(st):
 
 
 def _unroll_literal(st):
-    if not (isinstance(st, ast.For) and isinstance(st.target, ast.Name) and not st.orelse
+    """`for v in (a, b, c): body` over a literal of names / attribute paths / field-name strings, and
+    `for u, v in ((a, b), (c, d)): body` over a literal of such tuples, become the copies of the body."""
+    if not (isinstance(st, ast.For) and not st.orelse
             and isinstance(st.iter, (ast.Tuple, ast.List)) and 1 <= len(st.iter.elts) <= 12):
         return None
-    names = all(isinstance(e, (ast.Name, ast.Attribute)) and access_path(e) is not None for e in st.iter.elts)
-    strings = all(isinstance(e, ast.Constant) and isinstance(e.value, str) for e in st.iter.elts)      # field names
-    if not (names or strings):
+
+    def atom(e):
+        return (isinstance(e, (ast.Name, ast.Attribute)) and access_path(e) is not None) or \
+            (isinstance(e, ast.Constant) and isinstance(e.value, str))
+    if isinstance(st.target, ast.Name):
+        targets = [st.target.id]
+        rows = [[e] for e in st.iter.elts]
+        names = all(isinstance(e, (ast.Name, ast.Attribute)) and access_path(e) is not None for e in st.iter.elts)
+        strings = all(isinstance(e, ast.Constant) and isinstance(e.value, str) for e in st.iter.elts)      # field names
+        if not (names or strings):
+            return None
+    elif isinstance(st.target, ast.Tuple) and all(isinstance(t, ast.Name) for t in st.target.elts):
+        targets = [t.id for t in st.target.elts]
+        if len(set(targets)) != len(targets):
+            return None
+        if not all(isinstance(e, (ast.Tuple, ast.List)) and len(e.elts) == len(targets) and all(atom(x) for x in e.elts) for e in st.iter.elts):
+            return None
+        rows = [list(e.elts) for e in st.iter.elts]
+    else:
         return None
-    v = st.target.id
+    elem_paths = {access_path(x) for r in rows for x in r if not isinstance(x, ast.Constant)}
     for n in ast.walk(ast.Module(body=st.body, type_ignores=[])):
         if isinstance(n, (ast.Break, ast.Continue, ast.FunctionDef, ast.Lambda, ast.AsyncFunctionDef)):
             return None
-        if isinstance(n, ast.Name) and n.id == v and not isinstance(n.ctx, ast.Load):
+        if isinstance(n, ast.Name) and n.id in targets and not isinstance(n.ctx, ast.Load):
             return None
+        if isinstance(n, (ast.Name, ast.Attribute, ast.Subscript)) and not isinstance(n.ctx, ast.Load):
+            q = access_path(n)
+            # an element rebound inside the body would be read too late by the copies
+            if q is not None and any(p_ == q or p_.startswith(q + ".") or p_.startswith(q + "[") for p_ in elem_paths):
+                return None
     out = []
-    for e in st.iter.elts:
+    for row in rows:
+        m = dict(zip(targets, row))
         for b in st.body:
             c = copy.deepcopy(b)
 
             class S(ast.NodeTransformer):
                 def visit_Name(self, n):
-                    if n.id == v and isinstance(n.ctx, ast.Load):
-                        return ast.copy_location(copy.deepcopy(e), n)
+                    if n.id in m and isinstance(n.ctx, ast.Load):
+                        return ast.copy_location(copy.deepcopy(m[n.id]), n)
                     return n
             out.append(S().visit(c))
     STATS["unroll"] = STATS.get("unroll", 0) + 1
@@ -578,10 +602,145 @@ def _stmt(st, fx, occ):
     return [st]
 
 
+
+# -------------------------------------------------------------------- unalias
+_MUTATORS = {"update", "pop", "popitem", "clear", "setdefault", "append", "extend", "insert", "remove",
+             "sort", "reverse", "__setitem__", "__delitem__"}
+
+
+def _pure_path(e):
+    """Attribute chain rooted at a name, optionally with constant *string* subscripts (option and
+    feature look-ups).  Returns (path text, has_subscript) or None."""
+    sub = False
+    n = e
+    while isinstance(n, (ast.Attribute, ast.Subscript)):
+        if isinstance(n, ast.Subscript):
+            if not (isinstance(n.slice, ast.Constant) and isinstance(n.slice.value, str)):
+                return None
+            sub = True
+        n = n.value
+    if not isinstance(n, ast.Name) or n is e:
+        return None
+    return access_path(e), sub
+
+
+def _alias_candidates(block):
+    for k, st in enumerate(block):
+        if (isinstance(st, ast.Assign) and len(st.targets) == 1 and isinstance(st.targets[0], ast.Name)
+                and _pure_path(st.value) is not None):
+            yield k, st
+
+
+def _unalias_once(fn):
+    """A local bound exactly once to a plain attribute path (`job = self.job`, `compare =
+    self.dominance.compare`, `lo = parameter['bounds']`) and read only by the statements that follow it
+    in its own block, while nothing there stores to the path, to a prefix of it or to its root, is
+    replaced by the path.  The rules then see one spelling whether or not the attribute was cached."""
+    params = {a.arg for a in ast.walk(fn.args) if isinstance(a, ast.arg)}
+    stores, loads = {}, {}
+    for n in ast.walk(fn):
+        if isinstance(n, ast.Name):
+            d = loads if isinstance(n.ctx, ast.Load) else stores
+            d[n.id] = d.get(n.id, 0) + 1
+        elif isinstance(n, (ast.Global, ast.Nonlocal)):
+            for nm in n.names:
+                stores[nm] = stores.get(nm, 0) + 2
+        elif isinstance(n, ast.ExceptHandler) and n.name:
+            stores[n.name] = stores.get(n.name, 0) + 1
+        elif isinstance(n, ast.alias):
+            nm = (n.asname or n.name).split(".")[0]
+            stores[nm] = stores.get(nm, 0) + 1
+        elif isinstance(n, (ast.FunctionDef, ast.AsyncFunctionDef, ast.ClassDef)) and n is not fn:
+            stores[n.name] = stores.get(n.name, 0) + 1
+            for a in ast.walk(n.args) if not isinstance(n, ast.ClassDef) else ():
+                if isinstance(a, ast.arg):
+                    stores[a.arg] = stores.get(a.arg, 0) + 1
+        elif isinstance(n, ast.Lambda):
+            for a in ast.walk(n.args):
+                if isinstance(a, ast.arg):
+                    stores[a.arg] = stores.get(a.arg, 0) + 1
+
+    def blocks(node):
+        for f in ("body", "orelse", "finalbody"):
+            b = getattr(node, f, None)
+            if isinstance(b, list) and b and isinstance(b[0], ast.stmt):
+                yield b
+                for st in b:
+                    if not isinstance(st, (ast.FunctionDef, ast.AsyncFunctionDef, ast.ClassDef)):
+                        yield from blocks(st)
+        for h in getattr(node, "handlers", []) or []:
+            yield h.body
+            for st in h.body:
+                yield from blocks(st)
+
+    for block in blocks(fn):
+        for k, st in _alias_candidates(block):
+            x = st.targets[0].id
+            path, sub = _pure_path(st.value)
+            root = root_name(st.value)
+            if x in params or stores.get(x, 0) != 1 or root == x or loads.get(x, 0) == 0:
+                continue
+            region = block[k + 1:]
+            in_region = sum(1 for r in region for n in ast.walk(r) if isinstance(n, ast.Name) and n.id == x)
+            if in_region != loads.get(x, 0):
+                continue
+            ok = True
+            for r in region:
+                for n in ast.walk(r):
+                    if isinstance(n, ast.Name) and n.id == root and not isinstance(n.ctx, ast.Load):
+                        ok = False
+                    elif isinstance(n, (ast.Attribute, ast.Subscript)) and not isinstance(n.ctx, ast.Load):
+                        q = access_path(n)
+                        if q is None:
+                            if root_name(n) == root:
+                                ok = False
+                        elif q == path or path.startswith(q + ".") or path.startswith(q + "["):
+                            ok = False
+                    elif isinstance(n, ast.ExceptHandler) and n.name == root:
+                        ok = False
+                    elif (sub and isinstance(n, ast.Call) and isinstance(n.func, ast.Attribute)
+                          and n.func.attr in _MUTATORS):
+                        q = access_path(n.func.value)
+                        if q is not None and (path.startswith(q + "[") or path.startswith(q + ".")):
+                            ok = False
+                    elif isinstance(n, (ast.FunctionDef, ast.AsyncFunctionDef)) and root in {a.arg for a in ast.walk(n.args) if isinstance(a, ast.arg)}:
+                        ok = False
+                    elif isinstance(n, ast.Lambda) and root in {a.arg for a in ast.walk(n.args) if isinstance(a, ast.arg)}:
+                        ok = False
+                    elif isinstance(n, (ast.ListComp, ast.SetComp, ast.DictComp, ast.GeneratorExp)):
+                        for g in n.generators:
+                            if root in {m.id for m in ast.walk(g.target) if isinstance(m, ast.Name)}:
+                                ok = False
+                if not ok:
+                    break
+            if not ok:
+                continue
+
+            class S(ast.NodeTransformer):
+                def visit_Name(self, n):
+                    if n.id == x and isinstance(n.ctx, ast.Load):
+                        return _loc(copy.deepcopy(st.value), n)
+                    return n
+            for i in range(k + 1, len(block)):
+                block[i] = S().visit(block[i])
+            del block[k]
+            STATS["unalias"] = STATS.get("unalias", 0) + 1
+            return True
+    return False
+
+
+def _unalias(fn):
+    for _ in range(40):
+        if not _unalias_once(fn):
+            break
+
+UNALIAS = [os.environ.get('VERIF_UNALIAS', '1') != '0']
 COMP = [True]     # lower statement-level comprehensions (switched off for the rules that interpret them directly)
 
 
 def normalize_function(fn):
+    if UNALIAS[0]:
+        _unalias(fn)
     fx = _Fn(fn)
     occ = {}
     for n in ast.walk(fn):
